@@ -38,7 +38,7 @@ class Inline:
         if sa in ('input::InputGenerator', 'utf8::Utf8Accum'):
             return True
         # bitflags-generated helpers live in the `input` module
-        return body.npath.startswith('input::') or body.npath.startswith('<input::')
+        return body.npath.startswith(('input::', '<input::', 'utf8::', '<utf8::'))
 
 
 def render(I, w, rv):
@@ -82,7 +82,7 @@ def run(ctx, res):
         raise Inconclusive("InputGenerator constructor has %d abstract results" % len(ex))
     init = ex[0][1]
     fns = [f for f in lib.lib_fns() if base.self_adt(f) in ('input::InputGenerator', 'utf8::Utf8Accum')]
-    classes = fsm.partition_at(fsm.int_cuts(fns) | ref.boundaries())
+    classes = fsm.partition_at(fsm.int_cuts(fsm.with_callees(lib, fns)) | ref.boundaries())
     ui = I.field_index('input::InputGenerator', 'utf8')
     unorm = C02.make_normalise(I)
 
